@@ -218,7 +218,43 @@ func c19Case(c *rt.Ctx, o *rt.Obs) {
 	if len(usedTypes) >= 2 {
 		o.Nontrivial(fmt.Sprint("hist/", o.Index))
 	}
+	c19FailingLoad(ctx, o, local, remote)
 	c19Errors(ctx, o, local, remote)
+}
+
+// failAfter is a zio.Reader that yields n values and then fails.
+type failAfter struct {
+	vals []zed.Value
+	n, i int
+}
+
+func (f *failAfter) Read() (*zed.Value, error) {
+	if f.i >= f.n || f.i >= len(f.vals) {
+		return nil, fmt.Errorf("injected read fault in the load input")
+	}
+	v := &f.vals[f.i]
+	f.i++
+	return v, nil
+}
+
+// c19FailingLoad: a load whose input fails part-way must fail on both sides
+// and change neither lake (both API handles are used as a client would).
+func c19FailingLoad(ctx context.Context, o *rt.Obs, local, remote *c19Side) {
+	if local.m.NeedsVacuumed(local.m.Branches["main"]) {
+		return
+	}
+	zctx := zed.NewContext()
+	vals, _ := lk.ParseVals(zctx, []string{`{k:1,id:7001,s:"x"}`, `{k:2,id:7002,s:"x"}`, `{k:3,id:7003,s:"x"}`, `{k:4,id:7004,s:"x"}`})
+	for _, n := range []int{0, 1, 3} {
+		_, lerr := local.l.API.Load(ctx, zctx, local.m.PoolID, "main", &failAfter{vals: vals, n: n}, lk.Msg)
+		_, rerr := remote.l.API.Load(ctx, zctx, remote.m.PoolID, "main", &failAfter{vals: vals, n: n}, lk.Msg)
+		o.Count("failing_input_loads", 1)
+		if (lerr != nil) != (rerr != nil) {
+			o.Violation("outcome-differs:load-with-failing-input", fmt.Sprintf("load whose input fails after %d values: direct access returned %v, the remote handle returned %v", n, lerr, rerr))
+		}
+		problemsToViolations(o, "local:after-failed-load:", n, local.m.CheckAll(ctx, local.l))
+		problemsToViolations(o, "remote:after-failed-load:", n, remote.m.CheckAll(ctx, remote.l))
+	}
 }
 
 // c19ThroughFormat rewrites a load's values to what the reader of the load's
